@@ -83,8 +83,12 @@ class Dispatcher(InstructionGenerator):
                     range_remaining_km > environment.config.dispatcher.matching_range_km_threshold
                 )
 
+            # a request that is open to several fleets is offered in each of their passes; once
+            # an earlier pass has paired it, it is no longer waiting for a vehicle
+            already_paired = frozenset(i.request_id for i in inst_acc)
+
             def _valid_request(r: Request) -> bool:
-                not_already_dispatched = not r.dispatched_vehicle
+                not_already_dispatched = not r.dispatched_vehicle and r.id not in already_paired
                 if membership_id is not None:
                     valid_access = membership_id in r.membership.memberships
                 elif len(environment.fleet_ids) > 0:
